@@ -23,6 +23,18 @@ type gateQ struct {
 	popJK   *quartz.JobKey
 	popPrio int64
 	popOK   bool
+	records bool // the queue keeps records of its own: what it returns is never the object that was pushed
+}
+
+// a persistent / serialising queue hands out its own record objects (the JobQueue contract speaks of
+// ScheduledJob values, not of object identity)
+type ownRecord struct{ quartz.ScheduledJob }
+
+func (q *gateQ) out(j quartz.ScheduledJob, err error) (quartz.ScheduledJob, error) {
+	if err != nil || !q.records || j == nil {
+		return j, err
+	}
+	return &ownRecord{j}, nil
 }
 
 func newGateQ() *gateQ {
@@ -30,8 +42,18 @@ func newGateQ() *gateQ {
 	q.gated.Store(true)
 	return q
 }
+// Only calls made by the execution loop are stall points: a Size/Head/Pop that an API method makes on
+// its own account (from the driver's goroutine) passes, otherwise the driver would wait for itself.
+func fromLoop() bool {
+	switch callerOf() {
+	case "startExecutionLoop", "calculateNextTick", "executeAndReschedule", "fetchAndReschedule":
+		return true
+	}
+	return false
+}
+
 func (q *gateQ) gate(name string) {
-	if q.gated.Load() {
+	if q.gated.Load() && fromLoop() {
 		q.arrive <- name
 		<-q.release
 	}
@@ -41,7 +63,7 @@ func (q *gateQ) Head() (quartz.ScheduledJob, error) {
 	q.gate("Head")
 	j, err := q.inner.Head()
 	q.gate("HeadDone")
-	return j, err
+	return q.out(j, err)
 }
 func (q *gateQ) Pop() (quartz.ScheduledJob, error) {
 	q.gate("Pop")
@@ -54,17 +76,28 @@ func (q *gateQ) Pop() (quartz.ScheduledJob, error) {
 		q.popKey = ""
 	}
 	q.mu.Unlock()
-	return j, err
+	return q.out(j, err)
 }
-func (q *gateQ) Push(j quartz.ScheduledJob) error { return q.inner.Push(j) }
+func (q *gateQ) Push(j quartz.ScheduledJob) error {
+	if r, ok := j.(*ownRecord); ok {
+		j = r.ScheduledJob
+	}
+	return q.inner.Push(j)
+}
 func (q *gateQ) Get(k *quartz.JobKey) (quartz.ScheduledJob, error) {
-	return q.inner.Get(k)
+	return q.out(q.inner.Get(k))
 }
 func (q *gateQ) Remove(k *quartz.JobKey) (quartz.ScheduledJob, error) {
-	return q.inner.Remove(k)
+	return q.out(q.inner.Remove(k))
 }
 func (q *gateQ) ScheduledJobs(m []quartz.Matcher[quartz.ScheduledJob]) ([]quartz.ScheduledJob, error) {
-	return q.inner.ScheduledJobs(m)
+	js, err := q.inner.ScheduledJobs(m)
+	if err == nil && q.records {
+		for i := range js {
+			js[i] = &ownRecord{js[i]}
+		}
+	}
+	return js, err
 }
 func (q *gateQ) Clear() error { return q.inner.Clear() }
 
@@ -88,6 +121,7 @@ type gateScen struct {
 	Pos   string `json:"pos"`   // parked | atSize | atHead | atHeadDone
 	Call  string `json:"call"`  // schedule | replace | resume
 	Other string `json:"other"` // none | delete | pause | clear
+	Rec   bool   `json:"own_records,omitempty"` // the queue returns record objects of its own
 }
 
 type gateResult struct {
@@ -280,6 +314,7 @@ func runGateScenario1(sc gateScen) (res gateResult) {
 		}
 	}()
 	q := newGateQ()
+	q.records = sc.Rec
 	opts := []quartz.SchedulerOpt{quartz.WithQueue(q, &sync.Mutex{}), quartz.WithOutdatedThreshold(time.Hour)}
 	switch sc.Mode {
 	case "blocking":
@@ -511,7 +546,7 @@ func gateScenarios() []gateScen {
 	var out []gateScen
 	id := 0
 	add := func(mode, sit, pos, call, other string) {
-		out = append(out, gateScen{ID: id, Mode: mode, Sit: sit, Pos: pos, Call: call, Other: other})
+		out = append(out, gateScen{ID: id, Mode: mode, Sit: sit, Pos: pos, Call: call, Other: other, Rec: id%3 == 1})
 		id++
 	}
 	for _, sit := range []string{"empty", "far", "paused", "mid"} {
@@ -577,7 +612,7 @@ func cmdGate() {
 		go func() {
 			defer wg.Done()
 			for sc := range ch {
-				if failed.Load() >= 12 {
+				if failed.Load() >= 6 {
 					continue // enough evidence; the remaining scenarios would only wait for their deadlines
 				}
 				r := runGateScenario(sc)
